@@ -17,6 +17,7 @@ from ..monitor import CaseTimeout, bump, install, oracle, violation
 from ..workloads import markers as MW
 
 PROP = "C03"
+ANCHORS = ['dep_logic.markers:_build_markers', 'dep_logic.markers.single:MarkerExpression._evaluate', 'dep_logic.markers.single:SingleMarker.evaluate', 'dep_logic.markers.single:EqualityMarkerUnion._evaluate', 'dep_logic.markers.single:InequalityMultiMarker._evaluate', 'dep_logic.markers.multi:MultiMarker.evaluate', 'dep_logic.markers.union:MarkerUnion.evaluate']
 RULE = ("Marker texts from the grammar of the well-defined atom classes (both operand orders, all operators valid for "
         "the variable, nested and/or with parentheses, PEP 685 spellings of extras, dotted aliases os.name / "
         "sys.platform / platform.machine ..., set-valued extras / dependency_groups under context=lock_file), "
